@@ -17,7 +17,7 @@ EXPLANATION = (
     "by a raw String; (R4) keyword / built-in name recognition goes through cmp_str or "
     "eq_ignore_ascii_case; (R5) exactly the CR[LF] and LF line endings are recognised; (R6) the "
     "lexer never matches an ASCII letter constant exactly; (R7) two characters of program text are "
-    "never compared (order or equality) without case folding; (R10) every parser function that recognises the end of a line as the end of something recognises a colon too, or is tabled with the reason a colon is no alternative there; (R11) no token rule of the lexer raises a fatal error, because the lexer also tokenises comment and string text; (R12) every use of the one-token end-of-statement lookahead skips optional blanks first; (R13) the guard of the CR LF look-ahead in create_row_col_view is exactly `the next character exists` (not stronger); (R14) the parenthesis-only parser is used by the list of primary expressions only, so an operand that starts with `(` directly after a keyword is still a whole expression; (R15) every parser that consumes a line end as a separator is followed by the repetition that skips blank lines and indentation.")
+    "never compared (order or equality) without case folding; (R10) every parser function that recognises the end of a line as the end of something recognises a colon too, or is tabled with the reason a colon is no alternative there; (R11) no token rule of the lexer raises a fatal error, because the lexer also tokenises comment and string text; (R12) every use of the one-token end-of-statement lookahead skips optional blanks first; (R13) the guard of the CR LF look-ahead in create_row_col_view is exactly `the next character exists` (not stronger); (R14) the parenthesis-only parser is used by the list of primary expressions only, so an operand that starts with `(` directly after a keyword is still a whole expression; (R15) every parser that consumes a line end as a separator is followed by the repetition that skips blank lines and indentation; (R16) the label parser accepts the name and the colon only when adjacent (no optional part before the colon in its combinator type), so `Name : Next` stays a call followed by a separator.")
 NOT_DECIDED = [
     "equality of parse trees under layout transformations (blanks, comments, colon vs newline)",
     "row counting in create_row_col_view beyond the CR / LF guards and the tightness of the CR LF look-ahead guard (R13)",
@@ -670,6 +670,50 @@ def r15_line_end_is_followed_by_blank_skipping(ctx, rule="C09.R15"):
     ctx.require(rule, 2)
 
 
+def r16_label_is_name_then_colon(ctx, rule="C09.R16"):
+    """`newline vs colon between consecutive statements`: a call of a SUB without arguments followed
+    by the colon separator is spelled `Name : Next` - blanks, then the colon.  The label parser is
+    tried before the call parser, so it must accept the name and the colon only when they are
+    adjacent: if anything that can match nothing-or-blanks sits between them, `Greet : Greet` turns
+    the first call into a label although `Greet` newline `Greet` is two calls.  Decided on the
+    combinator type of the parser that builds Statement::Label: run in order, none of its parts
+    before the last is optional."""
+    from .. import pcnull
+    prog = ctx.prog
+    # self-test of the type reader
+    probe = "a::MapParser<a::AndParser<X<T>, a::AndParser<a::ToOptionParser<W>, Y<T>, K, O>, K2, O2>, {closure@x.rs:1:1: 1:2}>"
+    parts = pcnull.sequence(probe)
+    if parts != ["X<T>", "a::ToOptionParser<W>", "Y<T>"] or not pcnull.provably_optional(parts[1]):
+        raise CheckError("%s: self-test of pcnull.sequence failed: %s" % (rule, parts))
+    owners = []
+    for f in prog.fns.values():
+        if f.crate != "rusty_parser":
+            continue
+        for blk in f.body.blocks:
+            for st in blk["s"]:
+                r = st.get("r", {})
+                if st["k"] == "assign" and r.get("k") == "agg" and (r.get("adt") or "").endswith("::Statement") \
+                        and r.get("variant") == "Label":
+                    o = prog.enclosing_fn(f) or f
+                    if o not in owners:
+                        owners.append(o)
+    owners = [o for o in owners if "Parser" in o.body.locals[0]["ty"]]
+    if not owners:
+        raise CheckError("%s: no parser builds Statement::Label" % rule)
+    for o in owners:
+        parts = pcnull.sequence(o.body.locals[0]["ty"])
+        name = o.path.split("::", 1)[1]
+        if len(parts) < 2:
+            raise CheckError("%s: the type of %s shows no sequence (%s)" % (rule, name, parts))
+        opt = [pcnull.head_chain(p_, 3) for p_ in parts[:-1] if pcnull.provably_optional(p_)]
+        ctx.decide(not opt, rule, "%s:%s" % (rule, name), o.loc,
+                   "%d mandatory parts" % len(parts),
+                   "the label parser %s accepts something optional before its colon (%s): `Greet : Greet` - a call "
+                   "without arguments, blank, colon separator - is read as the label `Greet` although the same "
+                   "two calls on two lines are two calls" % (name, ", ".join(opt)))
+    ctx.require(rule, 1)
+
+
 def run(ctx):
     common.install(ctx)
     r1_folding_pair(ctx)
@@ -689,3 +733,4 @@ def run(ctx):
     r13_lookahead_guard_is_tight(ctx)
     r14_parenthesis_is_only_a_primary(ctx)
     r15_line_end_is_followed_by_blank_skipping(ctx)
+    r16_label_is_name_then_colon(ctx)
